@@ -106,7 +106,12 @@ UserProps(b) ==
      [op |-> "hash", kvs |-> KVs(<<KMetricAgg, Ka>>, b)],
      [op |-> "spanctxt", kvs |-> <<[k |-> KTraceId, v |-> 21], [k |-> KSpanId, v |-> 22], [k |-> KSpanParent, v |-> 23]>>]}
 
-SpanMetricViews(b) == {[op |-> o, t |-> x] : o \in {"span", "metric"}, x \in UserProps(b)}
+SpanMetricViews(b) ==
+    {[op |-> o, t |-> x] : o \in {"span", "metric"}, x \in UserProps(b)}
+    \cup {[op |-> o, t |-> x] : o \in {"span_with", "metric_with"},
+             x \in {[op |-> "pair", kvs |-> KVs(<<KEvtKind>>, b)],
+                    [op |-> "arr", kvs |-> KVs(<<KMetricValue, KMetricName, KMetricValue>>, b)],
+                    [op |-> "arr", kvs |-> KVs(<<KSpanName, KEvtKind, Ka>>, b)]}}
 
 \* leaves that repeat the views' keys with other values
 ViewRights(b) ==
